@@ -11,6 +11,8 @@ Pats4 == << Pats[1], Pats[2], Pats[3], Pats[5] >>
 Lims == << << <<1, 5>>, <<5, 2>> >>,      \* the defaults 0.2 .. 2.5
            << <<1, 2>>, <<2, 1>> >>,      \* 0.5 .. 2  (ties with pattern 5)
            << <<3, 5>>, <<7, 5>> >>,      \* 0.6 .. 1.4
-           << <<1, 10>>, <<10, 1>> >> >>  \* 0.1 .. 10
-Thrs == << << <<9, 10>>, TRUE >>, << <<1, 2>>, TRUE >>, << <<3, 1>>, FALSE >>, << <<8, 1>>, FALSE >> >>
+           << <<1, 10>>, <<10, 1>> >>,    \* 0.1 .. 10
+           << <<1, 4>>, <<4, 1>> >> >>    \* 0.25 .. 4 (ties with the 1 : 4 patterns)
+Thrs == << << <<9, 10>>, TRUE >>, << <<1, 2>>, TRUE >>, << <<3, 1>>, FALSE >>, << <<8, 1>>, FALSE >>,
+          << <<1, 1>>, TRUE >> >>        \* normalised threshold 1: "reject only the loudest window(s)"
 =============================================================================
